@@ -18,7 +18,7 @@ RULE = (
     "normalize_weights=False; tables equal the fault-free run (+-1 vote). non-trivial = a fault was actually delivered"
 )
 ASSUMPTIONS = [
-    "the inaccuracy warning is emitted exactly as cvxpy does (UserWarning from module cvxpy.problems.problem); the repository's own warnings filter must turn it into the exception",
+    "the inaccuracy warning is emitted exactly as the *installed* cvxpy emits it (validated in every worker against a genuine under-converged solve: same category, attributed to the same file); the repository's own warnings filter must turn it into the exception",
     "a retry with un-normalised weights solves the same LP up to scaling; tables may differ by one vote at rounding ties (counted)",
 ]
 _SEAM = None
@@ -26,6 +26,10 @@ _SEAM = None
 
 def worker_init():
     global _SEAM
+    # the seam's inaccuracy warning must be indistinguishable from the installed cvxpy's own
+    g_file, s_file, g_cat, s_cat = fakes.genuine_cvxpy_inaccuracy_attribution()
+    if (g_file, g_cat) != (s_file, s_cat):
+        raise RuntimeError(f"solver seam misrepresents cvxpy: genuine warning attributed to {g_file} ({g_cat}), seam's to {s_file} ({s_cat})")
     _SEAM = fakes.SolverSeam()
     _SEAM.install()
 
